@@ -70,6 +70,16 @@ theorem c04_create_seek (base new : List (Path × Bytes)) :
     Patch.createSeek base new = some (Patch.create base new) :=
   createSeek_eq base new
 
+/-- `c04_create_apply` through the seek-by-seek writer -/
+theorem c04_create_seek_apply (inflate : Bytes → Nat → Option Bytes) (A B : Tree) (la lb : List (Path × Bytes))
+    (hin : Inputs A (files B) = true)
+    (hla : ∀ p d, (p, d) ∈ la ↔ get A p = some (.file d))
+    (hlb : ∀ p d, (p, d) ∈ lb ↔ get B p = some (.file d)) :
+    ∃ patch T, Patch.createSeek la lb = some patch ∧ Patch.apply inflate patch A = (.ok, T) ∧
+      ∀ p d, get T p = some (.file d) ↔ get B p = some (.file d) := by
+  obtain ⟨T, h1, h2⟩ := c04_create_apply inflate A B la lb hin hla hlb
+  exact ⟨_, T, c04_create_seek la lb, h1, h2⟩
+
 /-- **The listing order does not matter**: two runs of `create` that saw the directory entries in
 different orders produce patches with the same effect on the files of `A`. -/
 theorem c04_listing_order (inflate : Bytes → Nat → Option Bytes) (A B : Tree)
